@@ -37,7 +37,10 @@ Results:
     `flush_outbound` — completes run B's `poll` with `Ok` at the moment run A's queues are drained and
     run A goes on to its continuation `k` from that very state: for `k = .post name op` (request already
     enqueued) that continuation just reports the handle (`C13_post_completes_with_poll`); for a `…Pre`
-    continuation it is the first moment the request touches the session.
+    continuation it is the first moment the request touches the session. "Completes both in the same
+    state" has one exception, stated in `DoneF` and `C13_disconnect_flush_vs_poll`: `disconnect` ends the
+    connection when its preliminary flush fails for any reason, `poll` only for a transport error, so
+    after a `WriteZero` run A's handle is dead and run B's state is run A's before `handle_disconnect`.
  3. Not yet enqueued (`C13_unenqueued_request_leaves_no_trace`, `C13_start_subscribe_vs_poll`): an
     operation inside its preliminary flush has done to session, transports and log exactly what a `poll`
     would have done; cancelling it changes none of them.
